@@ -367,10 +367,49 @@ def vm_check(chk, n):
                      where="vm_compute re-evaluation of oracle_mgmt differs from the extracted OCaml")
 
 
+W_HIST = dict(p_add=3, p_add_many=1, p_remove=2, p_remove_many=0.5, p_remove_filtered=0.5, p_update=1, p_update_many=0,
+              p_update_filtered=0, g_add=7, g_add_many=3, g_remove=6, g_remove_many=2, g_remove_filtered=2, rbac=5,
+              clear=0, load=1.5, save=0.5, build=0.3, flags=0, query=4, probe=0)
+
+
+def history_cases(kind, rng, n):
+    """the same query block, but asked AFTER a management history (adds, removals, batch and filtered forms, RBAC-API
+    calls, reloads, queries in between that build per-domain caches): the API must agree with enforcement and with
+    the grouping rules in every reachable state, not only right after a load"""
+    A = mgmt.ATOMS.a
+    for i in range(n):
+        gen = mgmt.Gen(rng, kind, W_HIST)
+        rows = gen.rows(rng.randint(0, 8))
+        if i % 4 == 0:
+            # revoke every assignment, reload, (re-assign one): the emptied role definition must not keep old links
+            gs = [r for pt, r in rows if pt == 1]
+            prefix = [(3, 1, list(r)) for r in gs] + [(31,)]
+            if gs and rng.random() < 0.5:
+                prefix.append((1, 1, list(gs[0])))
+        else:
+            prefix = mgmt.drop_prefix_aliases(kind, rows, gen.history(rng.randint(2, 12), final_probe=False))
+            # in-between queries: only the RBAC queries and enforce (a get_filtered_policy whose filter reaches past a
+            # rule raises IndexError by design - not this property's business)
+            prefix = [o for o in prefix if o[0] < 50 or o[0] in (50, 55, 56, 57, 58, 60, 61, 62, 63, 64)]
+        mentioned = list(rows)
+        for op in prefix:
+            if op[0] == 1 and op[1] in (0, 1) and len(op[2]) >= 2:
+                mentioned.append((op[1], list(op[2])))
+            elif op[0] == 2 and op[1] in (0, 1):
+                mentioned.extend((op[1], list(r)) for r in op[2] if len(r) >= 2)
+        mentioned = [(pt, r) for pt, r in mentioned if (pt == 1 and len(r) >= 2) or (pt == 0 and len(r) == kind.p_arity)]
+        yield (rows, True, list(prefix) + query_ops(kind, mentioned))
+
+
 def run(chk, n_random, max_g, max_p, cap, n_deep):
     rng = chk.rng
     strata = chk.extra.setdefault("strata", {})
     full_cover = True
+    for kn in ("rbac", "dom"):
+        kind = mgmt.KINDS[kn]
+        cases = list(history_cases(kind, rng, max(30, n_random // 2)))
+        run_stratum(chk, kind, cases, f"after-history-{kn}")
+        strata[f"after_history_{kn}"] = len(cases)
     for kn in ("rbac", "dom"):
         if _hangs[0]:
             return False
